@@ -25,8 +25,9 @@
 (*                                                                         *)
 (* TLC checks on every source up to MaxLines and every edit set up to       *)
 (* MaxEdits:  ConflictFree(E) => Impl = Ideal  (the design is right as long *)
-(* as no statement is added INSIDE a statement that goes away, no two edits *)
-(* touch overlapping statements and no block is emptied), and that the      *)
+(* as no statement is added INSIDE a statement that goes away and no two    *)
+(* edits touch overlapping statements; a block that loses all its           *)
+(* statements keeps a `pass` where the first one stood), and that the       *)
 (* result is a function of the SET (it does not depend on the order in      *)
 (* which the caller lists the edits: the sort key is total on conflict-free *)
 (* sets).  The cases with conflicts are written out as well: for them the   *)
@@ -69,7 +70,7 @@ Emptied(s, E) ==
         /\ s[i].h
         /\ ~\E e \in Gone(s, E) : Covers(s, e, i)
         /\ \A j \in (i + 1)..End(s, i) : \E e \in E : e.t = "del" /\ Covers(s, e, j)
-ConflictFree(s, E) == ~Overlap(s, E) /\ ~AddInside(s, E) /\ ~Emptied(s, E)
+ConflictFree(s, E) == ~Overlap(s, E) /\ ~AddInside(s, E)
 
 -----------------------------------------------------------------------------
 (* output lines: [txt, d].  txt: "s<i>" an original line, "r<i>" the replacement of statement i, "a<L>_<k>" an addition *)
@@ -77,6 +78,13 @@ Orig(s, i) == [txt |-> <<"s", i, 0>>, d |-> s[i].d]
 Repl(s, i) == [txt |-> <<"r", i, 0>>, d |-> s[i].d]
 AddDepth(s, l) == IF l < Len(s) THEN s[l + 1].d ELSE 0
 Added(s, e) == [txt |-> <<"a", e.n, e.k>>, d |-> AddDepth(s, e.n)]
+
+\* the first statement of a block that loses ALL of its statements (each by a removal of its own) leaves a `pass` behind
+Carrier(s, E, l) ==
+    /\ l > 1 /\ s[l - 1].h /\ s[l].d = s[l - 1].d + 1
+    /\ ~\E e \in Gone(s, E) : Covers(s, e, l - 1)
+    /\ \A j \in l..End(s, l - 1) : \E e \in E : e.t = "del" /\ e.n = j
+Pass(s, l) == [txt |-> <<"p", l, 0>>, d |-> s[l].d]
 
 \* additions behind line l, in the order of their text
 AddsAt(s, E, l) ==
@@ -87,6 +95,7 @@ RECURSIVE IdealFrom(_, _, _)
 IdealFrom(s, E, l) ==        \* the output for the original lines l.. (l = 0: what goes in front of everything)
     IF l > Len(s) THEN <<>>
     ELSE LET here == IF l = 0 THEN <<>>
+                     ELSE IF Carrier(s, E, l) THEN <<Pass(s, l)>>
                      ELSE IF \E e \in E : e.t = "del" /\ Covers(s, e, l) THEN <<>>
                      ELSE IF \E e \in E : e.t = "rep" /\ Covers(s, e, l)
                             THEN (IF \E e \in E : e.t = "rep" /\ e.n = l THEN <<Repl(s, l)>> ELSE <<>>)
@@ -108,15 +117,17 @@ Descending(s, E) == SetToSortSeq(E, LAMBDA e, f : Less(s, f, e))
 \* a removal takes the CHARACTERS of the statement away, not its line: one empty line stays where the statement was
 Blank == [txt |-> <<"blank", 0, 0>>, d |-> 0]
 Cut(lines, a, b) == SubSeq(lines, 1, a - 1) \o <<Blank>> \o SubSeq(lines, b + 1, Len(lines))
-Step(s, lines, e) ==
+Step(s, lines, e, AllEdits) ==
     CASE e.t = "add" -> SubSeq(lines, 1, IF e.n <= Len(lines) THEN e.n ELSE Len(lines)) \o <<Added(s, e)>>
                           \o SubSeq(lines, (IF e.n <= Len(lines) THEN e.n ELSE Len(lines)) + 1, Len(lines))
-      [] e.t = "del" -> Cut(lines, e.n, IF End(s, e.n) <= Len(lines) THEN End(s, e.n) ELSE Len(lines))
+      [] e.t = "del" -> IF Carrier(s, AllEdits, e.n)
+                          THEN SubSeq(lines, 1, e.n - 1) \o <<Pass(s, e.n)>> \o SubSeq(lines, e.n + 1, Len(lines))
+                          ELSE Cut(lines, e.n, IF End(s, e.n) <= Len(lines) THEN End(s, e.n) ELSE Len(lines))
       [] e.t = "rep" -> SubSeq(lines, 1, e.n - 1) \o <<Repl(s, e.n)>>
                           \o SubSeq(lines, (IF End(s, e.n) <= Len(lines) THEN End(s, e.n) ELSE Len(lines)) + 1, Len(lines))
-RECURSIVE Run(_, _, _)
-Run(s, lines, todo) == IF todo = <<>> THEN lines ELSE Run(s, Step(s, lines, Head(todo)), Tail(todo))
-Impl(s, E) == SelectSeq(Run(s, [i \in 1..Len(s) |-> Orig(s, i)], Descending(s, E)), LAMBDA x : x # Blank)
+RECURSIVE Run(_, _, _, _)
+Run(s, lines, todo, E) == IF todo = <<>> THEN lines ELSE Run(s, Step(s, lines, Head(todo), E), Tail(todo), E)
+Impl(s, E) == SelectSeq(Run(s, [i \in 1..Len(s) |-> Orig(s, i)], Descending(s, E), E), LAMBDA x : x # Blank)
 
 -----------------------------------------------------------------------------
 Init == src \in Sources /\ edits = {} /\ picked = FALSE
